@@ -195,6 +195,7 @@ def analyze(name, info, summaries=None, nonnullable=None, hard_failing=(), dir_d
                 G.intervals(val, ivs)
                 fact['v1_intervals'] = [(str(a), str(b), k) for a, b, k, _ in ivs][:12]
                 fact['p_out'] = str(p_out)
+            fact['ctx'] = list(getattr(G.gs(it), 'ctx', []))
             kws = it.env.get('kw_bools', [])
             fact['kw_called'] = bool(kws)
             fact['kw_true_on_ok'] = it.model_for(z3.Or(kws)) if (kws and it.feasible(z3.Or(kws))) else None
